@@ -117,6 +117,20 @@ func relatedTerm1(u *gen.Universe, r *gen.Rand, t gen.Term) gen.Term {
 func randomPool(u *gen.Universe, r *gen.Rand, k int) []gen.Term {
 	var pool []gen.Term
 	seen := map[string]bool{}
+	if cp := collisionPool(u); k >= 3 && k <= len(cp) && r.Chance(1, 10) {
+		// one cluster of three (x, y and the reference spelled like x followed by y) plus other members of the pool
+		g := 3 * r.Intn(4)
+		pool = append(pool, cp[g], cp[g+1], cp[g+2])
+		for _, j := range r.Perm(len(cp)) {
+			if len(pool) < k && (j < g || j > g+2) {
+				pool = append(pool, cp[j])
+			}
+		}
+		for i, j := range r.Perm(len(pool)) {
+			pool[i], pool[j] = pool[j], pool[i]
+		}
+		return pool
+	}
 	for len(pool) < k {
 		var t gen.Term
 		if len(pool) > 0 && r.Chance(1, 3) {
@@ -408,4 +422,36 @@ func bigStringsTier(u *gen.Universe, r *gen.Rand, xl bool) []bigString {
 		add("xl-tight-groups-100000", strings.Join(gx, "OR"), true, true)
 	}
 	return out
+}
+
+// genPopulation draws n distinct random reference names (3..10 bytes over the id alphabet, both cases) and returns them as
+// LicenseRef- terms: a large population of unrelated, individually unremarkable entries (digest-keyed indexes, sharding,
+// sort-and-bisect and similar size-driven machinery must treat each of them as itself).
+func genPopulation(c *Ctx, tag string, i, n int) []string {
+	r := gen.NewRand(c.Seed, 0x909, uint64(len(tag)), uint64(tag[2]), uint64(i))
+	const alpha = "abcdefghijklmnopqrstuvwxyzABCDEFGHIJKLMNOPQRSTUVWXYZ0123456789.-"
+	seen := make(map[string]bool, n)
+	out := make([]string, 0, n)
+	for len(out) < n {
+		b := make([]byte, 3+r.Intn(8))
+		for j := range b {
+			b[j] = alpha[r.Intn(len(alpha))]
+		}
+		if !seen[string(b)] {
+			seen[string(b)] = true
+			out = append(out, "LicenseRef-"+string(b))
+		}
+	}
+	return out
+}
+
+// collisionPool is a fixed set of terms whose canonical strings are concatenations / prefixes of one another: keys built by
+// joining term strings without a separator, prefix-based lookups and the like confuse them.
+func collisionPool(u *gen.Universe) []gen.Term {
+	return []gen.Term{
+		{Ref: true, LicRef: "a"}, {Ref: true, LicRef: "b"}, {Ref: true, LicRef: "aLicenseRef-b"},
+		{Ref: true, LicRef: "vendor"}, {ID: "MIT"}, {Ref: true, LicRef: "vendorMIT"},
+		{Ref: true, LicRef: "x", DocRef: "d"}, {ID: "GPL-2.0"}, {Ref: true, LicRef: "xGPL-2.0", DocRef: "d"},
+		{Ref: true, LicRef: "b2"}, {ID: "Apache-2.0"}, {Ref: true, LicRef: "b2Apache-2.0"},
+		{Ref: true, LicRef: "ab"}, {Ref: true, LicRef: "a", DocRef: "d"}, {Ref: true, LicRef: "LicenseRef-a", DocRef: "d"}, {ID: "MIT-0"}, {ID: "MIT", Exc: u.Exceptions[0]}}
 }
